@@ -259,3 +259,40 @@ Definition cfb_op (blocksize : nat) (E : list N -> list N) (iv : list N) (o : op
   | Enc m => cfb_enc blocksize E (firstn blocksize iv) m
   | Dec m => cfb_dec blocksize E (firstn blocksize iv) m
   end.
+
+(* ---------- the stock implementation: crypto/cipher's CFB stream (cfb.go), one XORKeyStream
+   call on a fresh stream made by NewCFBEncrypter / NewCFBDecrypter(block, iv) with a
+   destination of exactly len(src) bytes.  State: next, out, outUsed.
+     for len(src) > 0 {
+       if outUsed == len(out) { b.Encrypt(out, next); outUsed = 0 }
+       if decrypt { copy(next[outUsed:], src) }
+       n := XORBytes(dst, src, out[outUsed:])
+       if !decrypt { copy(next[outUsed:], dst) }
+       dst = dst[n:]; src = src[n:]; outUsed += n }                      ---------- *)
+Section StdCfb.
+  Variable bs : nat.
+  Variable E : list N -> list N.
+
+  Fixpoint std_cfb_loop (fuel : nat) (dec : bool) (next out : list N) (used : nat) (src : list N)
+    : list N :=
+    match fuel with
+    | O => []
+    | S f =>
+        match src with
+        | [] => []
+        | _ =>
+            let '(out, used) := if used =? length out then (Eb bs E next, 0) else (out, used) in
+            let cnt := Nat.min (length next - used) (length src) in
+            let next := if dec then wr used (firstn cnt src) next else next in
+            let d := xorl src (skipn used out) in
+            let n := length d in
+            let next := if dec then next else wr used d next in
+            d ++ std_cfb_loop f dec next out (used + n) (skipn n src)
+        end
+    end.
+
+  (* newCFB: panics unless len(iv) == blockSize; next = iv, out = zeros, outUsed = blockSize *)
+  Definition std_cfb (dec : bool) (iv msg : list N) : option (list N) :=
+    if length iv =? bs then Some (std_cfb_loop (length msg) dec iv (repeat 0%N bs) bs msg)
+    else None.
+End StdCfb.
